@@ -283,6 +283,33 @@ theorem C09_error (site : Gen.Semver.GateSite) (srv : Nat × Nat × Nat) (m : Li
 theorem C09_nover (site : Gen.Semver.GateSite) (m : List Char) (md : ClientMd) :
     gate site none m md = .pass := rfl
 
+/-- "identically on socket transports and HTTP": the three call sites decide every
+(server version, method, client metadata) triple the same way, refusal payload included. -/
+theorem C09_sites_agree (s₁ s₂ : Gen.Semver.GateSite)
+    (h₁ : s₁ ∈ Gen.Semver.gateSites) (h₂ : s₂ ∈ Gen.Semver.gateSites)
+    (srv : Option (Nat × Nat × Nat)) (m : List Char) (md : ClientMd) :
+    gate s₁ srv m md = gate s₂ srv m md := by
+  have e₁ : s₁.exempt = describeName := (C09_paths.2.1 s₁ h₁).2
+  have e₂ : s₂.exempt = describeName := (C09_paths.2.1 s₂ h₂).2
+  unfold gate
+  rw [e₁, e₂]
+
+/-- the decision (and the refusal it carries) never depends on the server's PATCH component -/
+theorem C09_server_patch_irrelevant (site : Gen.Semver.GateSite) (a b p p' : Nat)
+    (m : List Char) (md : ClientMd) :
+    gate site (some (a, b, p)) m md = gate site (some (a, b, p')) m md := by
+  unfold gate
+  cases md <;> rfl
+
+/-- a text is the canonical spelling of at most one version, so "the client's major and minor"
+in `C09` is well defined (no text is both `a.b.c` and `a'.b'.c'`) -/
+theorem C09_canon_unique (s : List Char) (a b c a' b' c' : Nat)
+    (h : CanonVersion s a b c) (h' : CanonVersion s a' b' c') : a = a' ∧ b = b' ∧ c = c' := by
+  have e := (parse_spec s a b c).2 h
+  rw [(parse_spec s a' b' c').2 h'] at e
+  simp only [Option.some.injEq, Prod.mk.injEq] at e
+  exact ⟨e.1.symm, e.2.1.symm, e.2.2.symm⟩
+
 /-- non-vacuity: a concrete canonical version, a concrete mismatch and a concrete malformed text -/
 example : gate ⟨"pipe", true, describeName⟩ (some (1, 2, 0)) "add".toList (.text "1.2.9".toList) = .pass := by
   decide
